@@ -24,6 +24,18 @@ type Entry struct {
 	Note string
 }
 
+// MaxEntryBody is the largest ExtIDs+content payload Factom accepts in one entry.
+const MaxEntryBody = 10240
+
+// BodySize returns the encoded size of ext ids + content.
+func BodySize(extids [][]byte, content []byte) int {
+	n := len(content)
+	for _, x := range extids {
+		n += 2 + len(x)
+	}
+	return n
+}
+
 // NewEntry marshals an entry for the chain with the given external ids and content.
 func NewEntry(chain factom.Bytes32, extids [][]byte, content []byte) Entry {
 	c := chain
